@@ -26,6 +26,16 @@ type encoder struct {
 	run func(v any, o *ojg.Options) (string, error)
 }
 
+// sameJSON: two texts denote the same tree (the members of a Go map are
+// written in whatever order the map yields them, so two calls may differ in that).
+func sameJSON(a, b []byte) bool {
+	var x, y any
+	if json.Unmarshal(a, &x) != nil || json.Unmarshal(b, &y) != nil {
+		return false
+	}
+	return reflect.DeepEqual(x, y)
+}
+
 var encoders = []encoder{
 	{"oj.JSON", "oj", true, false, func(v any, o *ojg.Options) (string, error) {
 		return oj.JSON(v, o), nil
@@ -37,6 +47,21 @@ var encoders = []encoder{
 	{"oj.Write", "oj", true, false, func(v any, o *ojg.Options) (string, error) {
 		var b bytes.Buffer
 		err := oj.Write(&b, v, o)
+		// the same call with a buffer that is flushed at every opportunity, and at
+		// every seventh byte: what reaches the io.Writer is the text, whatever the limit
+		for _, lim := range []int{1, 7} {
+			if err != nil {
+				break
+			}
+			o2 := *o
+			o2.WriteLimit = lim
+			var b2 bytes.Buffer
+			if err2 := oj.Write(&b2, v, &o2); err2 != nil {
+				return b2.String(), fmt.Errorf("with WriteLimit %d: %v", lim, err2)
+			} else if b2.String() != b.String() && !sameJSON(b2.Bytes(), b.Bytes()) {
+				return b2.String(), fmt.Errorf("with WriteLimit %d the io.Writer received %q instead of %q", lim, b2.String(), b.String())
+			}
+		}
 		return b.String(), err
 	}},
 	{"oj.Writer", "oj", true, false, func(v any, o *ojg.Options) (string, error) {
